@@ -102,7 +102,7 @@ class Ctx:
 
     def record(self, v: Violation):
         self.violations.append(
-            {"clause": v.clause, "case": v.case, "message": v.message}
+            {"clause": v.clause, "case": v.case, "message": v.message, "host_env": getattr(self, "host_env", 0)}
         )
 
     # -- hypothesis driver -----------------------------------------------------
